@@ -26,7 +26,15 @@ func buildBytes(b Batch, norm NormFn, mode uint32) ([]byte, error) {
 	if err != nil {
 		return nil, err
 	}
-	return Persist(seg)
+	bs, err := Persist(seg)
+	// the segment is discarded; the slice its Fields() returned is the caller's to scribble on (that
+	// ruins THIS segment object, which nobody uses again, and must not reach any later build)
+	if fs := seg.Fields(); len(fs) >= 2 {
+		for i, j := 0, len(fs)-1; i < j; i, j = i+1, j-1 {
+			fs[i], fs[j] = fs[j], fs[i]
+		}
+	}
+	return bs, err
 }
 
 func genAnyBatch(t *rapid.T, sc *Scenario, label string) (Batch, string) {
